@@ -288,15 +288,28 @@ func (w *walker) guardNil(ps string) func(g guard) bool {
 	if a, ok := w.alias[head]; ok {
 		cands = append(cands, a+rest)
 	}
+	has := func(cond, e string) bool { // e occurs in cond, not as the tail of a longer selector
+		for i := strings.Index(cond, e); i >= 0; {
+			if i == 0 || !strings.ContainsRune("abcdefghijklmnopqrstuvwxyzABCDEFGHIJKLMNOPQRSTUVWXYZ0123456789_.)]", rune(cond[i-1])) {
+				return true
+			}
+			j := strings.Index(cond[i+1:], e)
+			if j < 0 {
+				break
+			}
+			i += 1 + j
+		}
+		return false
+	}
 	return func(g guard) bool {
 		for _, c := range cands {
 			switch g.mode {
 			case "after", "else", "or":
-				if strings.Contains(g.cond, c+" == nil") {
+				if has(g.cond, c+" == nil") {
 					return true
 				}
 			case "in", "and":
-				if strings.Contains(g.cond, c+" != nil") {
+				if has(g.cond, c+" != nil") {
 					return true
 				}
 			}
